@@ -491,6 +491,7 @@ func cmdCheck(args []string) int {
 	seedFlag := fs.String("seed", os.Getenv("VERIF_SEED"), "seed")
 	maxWall := fs.Duration("max-wall", 0, "stop generating after this long")
 	noMin := fs.Bool("no-minimise", false, "skip minimisation")
+	propose := fs.Bool("propose", false, "developer aid: write each new violation's replay under findings/ and print a candidate known-findings line (never used by registered checks)")
 	fs.Parse(args[1:])
 	t0 := time.Now()
 
@@ -730,6 +731,12 @@ func cmdCheck(args []string) int {
 		path := filepath.Join(root, "replays", name)
 		b, _ := json.MarshalIndent(rep, "", " ")
 		os.WriteFile(path, b, 0o644)
+		if *propose {
+			os.MkdirAll(filepath.Join(root, "findings"), 0o755)
+			fname := fmt.Sprintf("%s-%s.json", prop, sanitize(rep.Sig))
+			os.WriteFile(filepath.Join(root, "findings", fname), b, 0o644)
+			fmt.Printf("PROPOSE finding: property=%s sig=%s replay=findings/%s %s\n", prop, rep.Sig, fname, strings.ReplaceAll(firstLines(rep.Msg, 1), "\n", " "))
+		}
 		violations = append(violations, fmt.Sprintf("VIOLATION property=%s replay=%s", prop, path))
 		fmt.Printf("  %s: %s [%s] x%d\n    %s\n", rep.Class, rep.Oracle, rep.Sig, a.violCount[key], strings.ReplaceAll(firstLines(rep.Msg, 12), "\n", "\n    "))
 	}
